@@ -88,6 +88,16 @@ func (ww *conversionVisitor) visitServiceMethodNode(service *serviceBuilder, nod
 	methodBuilder.desc.InputType = gl.Ptr(node.InputType)
 	methodBuilder.desc.OutputType = gl.Ptr(node.OutputType)
 
+	// The generated request and response messages by their full names:
+	// resolved from inside the service, a bare name finds an rpc of that name
+	// first (method Ping next to method PingResponse).
+	if !strings.Contains(node.InputType, ".") {
+		methodBuilder.desc.InputType = gl.Ptr("." + ww.file.fdp.GetPackage() + "." + node.InputType)
+	}
+	if !strings.Contains(node.OutputType, ".") {
+		methodBuilder.desc.OutputType = gl.Ptr("." + ww.file.fdp.GetPackage() + "." + node.OutputType)
+	}
+
 	if node.OutputType == "google.api.HttpBody" {
 		ww.file.ensureImport(googleApiHttpBodyImport)
 	}
